@@ -99,7 +99,7 @@ impl Scenario for C05 {
     fn runs(&self, tier: Tier) -> u64 {
         match tier {
             Tier::Quick => 200_000,
-            Tier::Thorough => 12_000_000,
+            Tier::Thorough => 40_000_000,
         }
     }
     fn generate(&self, rng: &mut Prng, _tier: Tier) -> Spec {
